@@ -90,6 +90,20 @@ def run(ctx):
             raise core.MachineryError("harness wire encoder disagrees with RawHttpR.ReqWire")
         check_req(parts, wire, "table")
         ctx.count_distinct(wire)
+    # history independence: the parts returned for a message never depend on earlier parses or on what callers did with earlier results
+    for row in tab["req"][:: max(1, len(tab["req"]) // 60)]:
+        p = row["parts"]
+        parts = {"method": B(p["method"]), "path": B(p["path"]), "params": kv(p["params"]), "headers": kv(p["headers"]), "body": B(p["body"])}
+        wire = B(row["wire"])
+        g1 = core.outcome(c2.parse_raw_http, wire)
+        if g1[0] == "ok":
+            try:
+                g1[1].params[b"injected"] = b"1"
+                g1[1].params.pop(next(iter(parts["params"]))[0] if parts["params"] else b"injected", None)
+                g1[1].headers[b"X-Injected"] = b"1"
+            except Exception:
+                pass
+            check_req(parts, wire, "after_mutating_an_earlier_result")
     for row in tab["resp"]:
         p = row["parts"]
         parts = {"status": p["status"], "reason": B(p["reason"]), "headers": kv(p["headers"]), "body": B(p["body"])}
